@@ -94,7 +94,7 @@ def gen_script(rng):
     return c, rng.random() < 0.3, rng.random() < 0.9, outs
 
 
-def run_script(c, sub, umw, outs, with_client=True):
+def run_script(c, sub, umw, outs, with_client=True, foreign_global=False):
     """Drive the real classes.  Returns the observation dict for check_case."""
     import pynguin.configuration as config
     from pynguin.generator import ReturnCode
@@ -111,7 +111,20 @@ def run_script(c, sub, umw, outs, with_client=True):
     cfg.use_master_worker = umw
     cfg.subprocess = sub
     old_cfg = config.configuration
-    config.configuration = cfg
+    if foreign_global:
+        # library use: the task's Configuration is NOT the process-wide one (nobody called set_configuration in
+        # the master); the restart protocol must work on the task's own budget
+        glob = config.Configuration(
+            project_path="/nonexistent", module_name="nomodule",
+            test_case_output=config.TestCaseOutputConfiguration(output_path="/nonexistent"),
+            algorithm=config.Algorithm.DYNAMOSA,
+            stopping=config.StoppingConfiguration(maximum_iterations=5, maximum_search_time=987654),
+        )
+        glob.use_master_worker = umw
+        glob.subprocess = not sub
+        config.configuration = glob
+    else:
+        config.configuration = cfg
 
     base = float(1 << 30) + 12345.0
     script = list(outs)
@@ -224,7 +237,8 @@ def run_script(c, sub, umw, outs, with_client=True):
     return {"time": c, "sub": sub, "umw": umw, "outcomes": [list(o) for o in outs], "events": [list(e) for e in events],
             "result": None if obs["result"] is None else list(obs["result"]),
             "final_time": cfg.stopping.maximum_search_time, "final_sub": bool(cfg.subprocess),
-            "client": client_rc, "n_starts": len(obs["starts"]), "start_times": [s[0] for s in obs["starts"]]}
+            "client": client_rc, "n_starts": len(obs["starts"]), "start_times": [s[0] for s in obs["starts"]],
+            "foreign_global": foreign_global}
 
 
 def oracle_script(o):
@@ -263,7 +277,8 @@ def quick_scenarios(rng):
     it = lambda: rng.choice([1, 2])  # noqa: E731
     how = lambda: rng.choice(["", ":KILL"])  # noqa: E731
     sc = [
-        {"name": "import-x2", "sut": "die_import", "search_time": 90, "iterations": it(), "sut_crashes": 2},
+        {"name": "import-x2", "sut": "die_import", "search_time": 90, "iterations": it(), "sut_crashes": 2,
+         "foreign_global": True},
         {"name": "import-iterbudget", "sut": "die_import", "search_time": -1, "iterations": it(), "sut_crashes": 1},
         {"name": "import-always", "sut": "die_import", "search_time": rng.choice([2, 3]), "iterations": -1,
          "sut_crashes": 1000},
@@ -326,6 +341,8 @@ def random_scenario(rng, k):
         s["iterations"] = min(s["iterations"], 3) if s["iterations"] > 0 else s["iterations"]
     if rng.random() < 0.1:
         s["algorithm"] = rng.choice(["MOSA", "RANDOM", "WHOLE_SUITE"])
+    if rng.random() < 0.4:
+        s["foreign_global"] = True
     return s
 
 
@@ -503,7 +520,8 @@ def _run_rest(ctx, corpus, scen, futs, has_hook):
     import logging
     logging.getLogger("pynguin").setLevel(logging.CRITICAL)
     for i, (c, sub, umw, outs) in enumerate(scripts):
-        o = run_script(c, sub, umw, outs, with_client=(i % 5 != 4))
+        o = run_script(c, sub, umw, outs, with_client=(i % 5 != 4), foreign_global=(i % 2 == 1))
+        ctx.count("script:global-config:" + ("foreign" if i % 2 == 1 else "same"))
         obs.append(o)
         cases.append(c_case(o))
         n_die = sum(1 for x in outs if x[0] == "Die")
@@ -514,7 +532,7 @@ def _run_rest(ctx, corpus, scen, futs, has_hook):
         r = oracle_script(o)
         if r:
             n_or += 1
-            ctx.fail("script:" + r[0], r[1], {"kind": "script", "time": c, "sub": sub, "umw": umw,
+            ctx.fail("script:" + r[0], r[1], {"kind": "script", "time": c, "sub": sub, "umw": umw, "foreign_global": i % 2 == 1,
                                               "outcomes": [list(x) for x in outs], "observed": o})
     logging.getLogger("pynguin").setLevel(logging.NOTSET)
     ctx.log(f"scripted histories: {len(obs)}")
@@ -602,7 +620,8 @@ def replay(ctx, path):
     vlib.setup_impl_path()
     d = json.loads(open(path).read())["replay"]
     if d.get("kind") == "script":
-        o = run_script(d["time"], d["sub"], d["umw"], [tuple(x) for x in d["outcomes"]])
+        o = run_script(d["time"], d["sub"], d["umw"], [tuple(x) for x in d["outcomes"]],
+                       foreign_global=d.get("foreign_global", False))
         print("implementation:", o)
         print("oracle:", oracle_script(o))
         print("model agrees:", ctx.coq_eval("From Verif Require Import Models.C33.", "C33.check_case " + c_case(o)))
